@@ -2,7 +2,7 @@
    of the full-strength statements on the faithful model (each witness is replayed on rope by the harness). *)
 From Coq Require Import List NArith Bool.
 From RopeVerif.Lib Require Import Text.
-From RopeVerif.C07 Require Import Imports Spec Witnesses.
+From RopeVerif.C07 Require Import Imports Spec Renaming Witnesses.
 Import ListNotations.
 
 (* the hypotheses of the organize theorem hold on a block where something is removed, merged and sorted *)
@@ -119,3 +119,10 @@ Lemma alphabetical_ties_stable :
   sort_imports w_lay true [tie_a; tie_b] = [tie_a; tie_b] /\
   sort_imports w_lay true [tie_b; tie_a] = [tie_b; tie_a].
 Proof. repeat split; vm_compute; reflexivity. Qed.
+
+(* froms_to_imports renames by object: x becomes la.x, the primary la.x (the same object) is replaced as
+   a whole and stays la.x (it would be la.la.x if only the word were qualified), la.y is untouched *)
+Lemma froms_two_routes :
+  option_map (fun r => (map s_info (fst r), snd r)) (froms_to_imports w_lay w_prefs routes_used [] routes_stmts)
+  = Some ([Normal [([n_la], None)]], [[n_la; n_x]; [n_la; n_x]; [n_la; n_y]]).
+Proof. vm_compute. reflexivity. Qed.
